@@ -59,6 +59,8 @@ def record_case(cid, T, mods, seed, shuffle=True, origin='tlc'):
 
     ev('children', lambda: {'out': [[ix(c) for c in trees.children(o)] for o in objs]})
     ev('terminals', lambda: {'out': [[ix(c) for c in trees.terminals(o)] for o in objs]})
+    ev('helpers', lambda: {'uterms': [[ix(c) for c in trees.unordered_terminals(o)] for o in objs],
+                           'haskids': ['T' if trees.has_children(o) else 'F' for o in objs]})
     ev('preorder', lambda: {'out': [[ix(c) for c in trees.preorder(o)] for o in objs]})
     ev('postorder', lambda: {'out': [[ix(c) for c in trees.postorder(o)] for o in objs]})
     ev('siblings', lambda: {'right': [o0(trees.right_sibling(o)) for o in objs],
